@@ -13,13 +13,22 @@
     bit-level rule of the word type the state machine expects ⇒ [E30]/[E40]/[E50]/[E60] at the word);
   * state-dependent rules: [E110], [E111], [E12], [E42], [E444], [E41] at the word;
   * padding limit: C12 `overpadded_reported_and_reset`.
-  Partial (`…_partial`): that the state reached after a conforming prefix *is* the state in which
-  the faulted word is classified as its own type (the `LinkInv` induction of DESIGN §5.1) is not
-  yet a theorem; it is covered by the fault-catalogue oracle on the real binary and by exact
-  model/implementation agreement on every faulted stream.
+  * faults behind a conforming prefix (non-stave ITS modes), located at the word's byte offset:
+    `ihw_fault_after_conforming_prefix`, `tdh_fault_after_conforming_prefix`,
+    `ddw0_fault_after_conforming_prefix` — after ANY link prefix that follows the protocol grammar
+    (C01 `conforming_its_run_to`: the validator has reported nothing and stands where the grammar
+    stands), a packet whose payload starts with a bad IHW, whose second word is a bad TDH, or a
+    stop page with a bad DDW0 / wrong stop bit / page 0 is reported with [E30] / [E40], [E42],
+    [E444] / [E60], [E110], [E111] at offset packet + 64 (+ one slot).
+  Partial (`…_partial`): for faults deeper inside a page (third word onwards: data words, TDT,
+  later TDHs) the classification premise of the per-rule lemmas is not yet derived from the
+  grammar by a theorem; those positions are covered by the fault-catalogue oracle on the real
+  binary and by exact model/implementation agreement on every faulted stream.
 -/
 import FastPasta.Props.C10
 import FastPasta.Props.C11
+import FastPasta.Props.C01
+import FastPasta.Props.C07
 namespace FastPasta
 namespace C02
 
@@ -229,6 +238,256 @@ theorem tdh_continuation_rule (cfg : CheckCfg) (hrun : cfg.running = true) (s : 
     intro c; unfold preTdh; simp only; split <;> rfl
   have : (tdhContinuation w != 1) = true := by simp [hc]
   simp [tdhContinuationChecks, this, hwp]
+
+/-! ### faults behind a conforming prefix -/
+open Proto C01
+
+/-- what the link validator does with the first word of a packet's payload (non-stave ITS modes) -/
+theorem first_word (cfg : CheckCfg) (hits : cfg.itsChecks = true) (hst : cfg.stave = false)
+    (s : LinkSt) (p : Packet) (w : Bytes) (rest : List Bytes)
+    (hne : p.payload.isEmpty = false) (hcut : cutPayload p.payload = some (w :: rest))
+    (sf : LinkSt) (ms : List Msg) (h : linkStep cfg s p = .ok (sf, ms)) :
+    ∃ sA mA, checkWord cfg (startCdp s.cdp p.offset p.rdh) w = .ok (sA, mA) ∧ (∀ m ∈ mA, m ∈ ms) ∧
+      ∃ sB mB, checkWords cfg sA rest = .ok (sB, mB) ∧ (∀ m ∈ mB, m ∈ ms) := by
+  unfold linkStep at h
+  simp only [hits, hne, Bool.not_false, Bool.and_self, ↓reduceIte] at h
+  have hs0 : setCurrentRdh cfg s.cdp p.offset p.rdh = .ok (startCdp s.cdp p.offset p.rdh) := by
+    unfold setCurrentRdh startCdp; simp [hst]
+  unfold payloadChecks at h
+  simp only [hs0, hcut, checkWords] at h
+  cases hA : checkWord cfg (startCdp s.cdp p.offset p.rdh) w with
+  | error e => simp [hA] at h
+  | ok rA =>
+    obtain ⟨sA, mA⟩ := rA
+    simp only [hA] at h
+    cases hB : checkWords cfg sA rest with
+    | error e => simp [hB] at h
+    | ok rB =>
+      obtain ⟨sB, mB⟩ := rB
+      simp only [hB, Except.ok.injEq, Prod.mk.injEq] at h
+      obtain ⟨_, rfl⟩ := h
+      exact ⟨sA, mA, rfl, fun m hm => by simp [hm], sB, mB, hB, fun m hm => by simp [hm]⟩
+
+/-- offsets of the first and second word of a packet -/
+theorem first_word_pos (c : CdpSt) (off : Nat) (r : Rdh) (w : Bytes) :
+    (stepped (startCdp c off r) w).wordPos = off + 64 := by
+  simp [stepped, startCdp, CdpSt.wordPos]
+
+/-- **IHW position**: after any conforming link prefix, a packet whose first payload word is taken
+    as the page's IHW (always, except after a closed packet, where only the IHW identifier is)
+    and violates the documented IHW rule is reported with [E30] at the word's offset -/
+theorem ihw_fault_after_conforming_prefix (cfg : CheckCfg) (hits : cfg.itsChecks = true) (hst : cfg.stave = false)
+    (htp : cfg.triggerPeriod = none) (hver : cfg.customRdhVersion = none)
+    (id0 : Nat) (xs : List PktSpec) (done' : List Rdh) (st' : LSt)
+    (hc : ConformingLinkTo cfg id0 [] {} xs done' st')
+    (p : Packet) (w : Bytes) (rest : List Bytes)
+    (hne : p.payload.isEmpty = false) (hcut : cutPayload p.payload = some (w :: rest)) (hlen : w.length = 10)
+    (hpos : st'.bw = .closed → wordId w = ID_IHW)
+    (hbad : ¬ C11.IhwSpec (leNat w))
+    (sf : LinkSt) (ms : List Msg)
+    (h : linkRun cfg (LinkSt.init cfg) (xs.map PktSpec.packet ++ [p]) = .ok (sf, ms)) :
+    Msg.error { offset := p.offset + 64, code := "E30", word := some w } ∈ ms := by
+  obtain ⟨s1, hrun, _, hrel⟩ := conforming_its_run_to cfg hits hst htp id0 xs [] (LinkSt.init cfg) {} done' st'
+    ⟨by simp [LinkSt.init, hver], fun _ => C10.init_inv⟩ ⟨Or.inl rfl, fun _ => rfl⟩ hc
+  rw [linkRun_snoc cfg _ p _ s1 [] hrun] at h
+  cases hstep : linkStep cfg s1 p with
+  | error e => simp [hstep] at h
+  | ok r2 =>
+    obtain ⟨s2, m2⟩ := r2
+    simp only [hstep, List.nil_append, Except.ok.injEq, Prod.mk.injEq] at h
+    obtain ⟨_, rfl⟩ := h
+    obtain ⟨sA, mA, hA, hsub, _⟩ := first_word cfg hits hst s1 p w rest hne hcut s2 m2 hstep
+    have hfsm : (startCdp s1.cdp p.offset p.rdh).fsm = s1.cdp.fsm := rfl
+    have hcls : (fsmAdvance (startCdp s1.cdp p.offset p.rdh).fsm w).2 = .ihw ∨
+        (fsmAdvance (startCdp s1.cdp p.offset p.rdh).fsm w).2 = .ihwCont := by
+      rw [hfsm]
+      have hf := hrel.fsm
+      have hne1 : (ID_IHW == ID_TDH) = false := by decide
+      cases hbw : st'.bw with
+      | fresh =>
+        rw [hbw] at hf
+        rcases hf with hf | hf <;> (left; simp [fsmAdvance, fsmStep, hf])
+      | closed =>
+        rw [hbw] at hf
+        have hid := hpos hbw
+        rcases hf with hf | hf <;> (left; simp [fsmAdvance, fsmStep, hf, hid, hne1])
+      | open_ o =>
+        rw [hbw] at hf
+        right; simp [fsmAdvance, fsmStep, hf.1]
+    have := ihw_fault_detected cfg _ w hlen hcls hbad sA mA hA
+    have hm := hsub _ this
+    simpa [mkErr, first_word_pos] using hm
+
+/-- the state after the word in the IHW position of a page -/
+theorem ihw_pos_next (cfg : CheckCfg) (s : CdpSt) (w : Bytes) (sA : CdpSt) (mA : List Msg)
+    (h : checkWord cfg s w = .ok (sA, mA)) :
+    ((InFresh s.fsm ∨ (InChoice s.fsm ∧ wordId w = ID_IHW)) → sA.fsm = .tdhByWasIhw ∧ sA.rdh = s.rdh) ∧
+    (s.fsm = .cIhwByTdtFalse → sA.fsm = .cTdhByNext ∧ sA.rdh = s.rdh ∧ sA.tdh = s.tdh) := by
+  have hne1 : (ID_IHW == ID_TDH) = false := by decide
+  constructor
+  · intro hf
+    have hadv : fsmAdvance s.fsm w = (.tdhByWasIhw, .ihw) := by
+      rcases hf with (hf | hf) | ⟨hf | hf, hid⟩
+      · simp [fsmAdvance, fsmStep, hf]
+      · simp [fsmAdvance, fsmStep, hf]
+      · simp [fsmAdvance, fsmStep, hf, hid, hne1]
+      · simp [fsmAdvance, fsmStep, hf, hid, hne1]
+    simp only [checkWord, hadv, preIhw, Except.ok.injEq, Prod.mk.injEq] at h
+    obtain ⟨rfl, _⟩ := h
+    exact ⟨rfl, rfl⟩
+  · intro hf
+    have hadv : fsmAdvance s.fsm w = (.cTdhByNext, .ihwCont) := by simp [fsmAdvance, fsmStep, hf]
+    simp only [checkWord, hadv, preIhw, Except.ok.injEq, Prod.mk.injEq] at h
+    obtain ⟨rfl, _⟩ := h
+    exact ⟨rfl, rfl, rfl⟩
+
+/-- **TDH position**: after any conforming link prefix, in a packet that starts with a word in the
+    IHW position, the second word is taken as the TDH; if it violates the documented TDH rule it is
+    reported with [E40] at its own offset (packet + 64 + one slot); with the stateful checks on, a
+    wrong continuation bit gives [E42] (new packet) / [E41] (continued packet) and a wrong orbit
+    [E444], at the same offset -/
+theorem tdh_fault_after_conforming_prefix (cfg : CheckCfg) (hits : cfg.itsChecks = true) (hst : cfg.stave = false)
+    (htp : cfg.triggerPeriod = none) (hver : cfg.customRdhVersion = none)
+    (id0 : Nat) (xs : List PktSpec) (done' : List Rdh) (st' : LSt)
+    (hc : ConformingLinkTo cfg id0 [] {} xs done' st')
+    (p : Packet) (w0 w1 : Bytes) (rest : List Bytes)
+    (hne : p.payload.isEmpty = false) (hcut : cutPayload p.payload = some (w0 :: w1 :: rest)) (hlen : w1.length = 10)
+    (hpos : st'.bw = .closed → wordId w0 = ID_IHW)
+    (sf : LinkSt) (ms : List Msg)
+    (h : linkRun cfg (LinkSt.init cfg) (xs.map PktSpec.packet ++ [p]) = .ok (sf, ms)) :
+    let at1 := p.offset + 64 + C07.slotOf p.rdh
+    (¬ C11.TdhSpec (leNat w1) → Msg.error { offset := at1, code := "E40", word := some w1 } ∈ ms) ∧
+    (cfg.running = true → (∀ o, st'.bw ≠ .open_ o) →
+      (tdhContinuation w1 ≠ 0 → Msg.error { offset := at1, code := "E42", word := some w1 } ∈ ms) ∧
+      (tdhOrbit w1 ≠ p.rdh.orbit → Msg.error { offset := at1, code := "E444", word := some w1 } ∈ ms)) ∧
+    (cfg.running = true → (∃ o, st'.bw = .open_ o) →
+      tdhContinuation w1 ≠ 1 → Msg.error { offset := at1, code := "E41", word := some w1 } ∈ ms) := by
+  obtain ⟨s1, hrun, _, hrel⟩ := conforming_its_run_to cfg hits hst htp id0 xs [] (LinkSt.init cfg) {} done' st'
+    ⟨by simp [LinkSt.init, hver], fun _ => C10.init_inv⟩ ⟨Or.inl rfl, fun _ => rfl⟩ hc
+  rw [linkRun_snoc cfg _ p _ s1 [] hrun] at h
+  cases hstep : linkStep cfg s1 p with
+  | error e => simp [hstep] at h
+  | ok r2 =>
+    obtain ⟨s2, m2⟩ := r2
+    simp only [hstep, List.nil_append, Except.ok.injEq, Prod.mk.injEq] at h
+    obtain ⟨_, rfl⟩ := h
+    obtain ⟨sA, mA, hA, _, sB, mB, hB, hsubB⟩ := first_word cfg hits hst s1 p w0 (w1 :: rest) hne hcut s2 m2 hstep
+    -- second word
+    simp only [checkWords] at hB
+    cases hW : checkWord cfg sA w1 with
+    | error e => simp [hW] at hB
+    | ok rW =>
+      obtain ⟨sW, mW⟩ := rW
+      simp only [hW] at hB
+      cases hR : checkWords cfg sW rest with
+      | error e => simp [hR] at hB
+      | ok rR =>
+        obtain ⟨sR, mR⟩ := rR
+        simp only [hR, Except.ok.injEq, Prod.mk.injEq] at hB
+        obtain ⟨_, rfl⟩ := hB
+        have hsub : ∀ m ∈ mW, m ∈ m2 := fun m hm => hsubB m (by simp [hm])
+        -- tracker after the first word
+        obtain ⟨_, _, hpp, hsl, hwc⟩ := C07.checkWord_ok (fun _ => True) cfg (startCdp s1.cdp p.offset p.rdh) w0 trivial
+          (fun _ _ => trivial) sA mA hA
+        have hposA : (stepped sA w1).wordPos = p.offset + 64 + C07.slotOf p.rdh := by
+          simp only [stepped, CdpSt.wordPos, hpp, hsl, hwc, startCdp, C07.slotOf]
+          simp
+        obtain ⟨hnx1, hnx2⟩ := ihw_pos_next cfg (startCdp s1.cdp p.offset p.rdh) w0 sA mA hA
+        have hfsm0 : (startCdp s1.cdp p.offset p.rdh).fsm = s1.cdp.fsm := rfl
+        have hrdh0 : (startCdp s1.cdp p.offset p.rdh).rdh = p.rdh := rfl
+        have hf := hrel.fsm
+        simp only
+        refine ⟨?_, ?_, ?_⟩
+        · intro hbad
+          have hcls : (fsmAdvance sA.fsm w1).2 = .tdh ∨ (fsmAdvance sA.fsm w1).2 = .tdhCont ∨
+              (fsmAdvance sA.fsm w1).2 = .tdhAfterPacketDone := by
+            cases hbw : st'.bw with
+            | fresh =>
+              rw [hbw] at hf
+              have := (hnx1 (Or.inl (by rw [hfsm0]; exact hf))).1
+              left; simp [fsmAdvance, fsmStep, this]
+            | closed =>
+              rw [hbw] at hf
+              have := (hnx1 (Or.inr ⟨by rw [hfsm0]; exact hf, hpos hbw⟩)).1
+              left; simp [fsmAdvance, fsmStep, this]
+            | open_ o =>
+              rw [hbw] at hf
+              have := (hnx2 (by rw [hfsm0]; exact hf.1)).1
+              right; left; simp [fsmAdvance, fsmStep, this]
+          have := hsub _ (tdh_fault_detected cfg sA w1 hlen hcls hbad sW mW hW)
+          simpa [mkErr, hposA] using this
+        · intro hrn hno
+          have hA' : sA.fsm = .tdhByWasIhw ∧ sA.rdh = p.rdh := by
+            cases hbw : st'.bw with
+            | fresh =>
+              rw [hbw] at hf
+              have := hnx1 (Or.inl (by rw [hfsm0]; exact hf))
+              exact ⟨this.1, by rw [this.2, hrdh0]⟩
+            | closed =>
+              rw [hbw] at hf
+              have := hnx1 (Or.inr ⟨by rw [hfsm0]; exact hf, hpos hbw⟩)
+              exact ⟨this.1, by rw [this.2, hrdh0]⟩
+            | open_ o => exact absurd hbw (hno o)
+          have hcls : (fsmAdvance sA.fsm w1).2 = .tdh := by simp [fsmAdvance, fsmStep, hA'.1]
+          obtain ⟨r1, r2⟩ := tdh_after_ihw_rules cfg hrn sA w1 hcls sW mW hW
+          constructor
+          · intro hc1
+            have := hsub _ (r1 hc1)
+            simpa [mkErr, hposA] using this
+          · intro ho
+            have := hsub _ (r2 (by rw [hA'.2]; exact ho))
+            simpa [mkErr, hposA] using this
+        · intro hrn ⟨o, hbw⟩ hc1
+          rw [hbw] at hf
+          have := (hnx2 (by rw [hfsm0]; exact hf.1)).1
+          have hcls : (fsmAdvance sA.fsm w1).2 = .tdhCont := by simp [fsmAdvance, fsmStep, this]
+          have := hsub _ (tdh_continuation_rule cfg hrn sA w1 hcls hc1 sW mW hW)
+          simpa [mkErr, hposA] using this
+
+/-- **DDW0 position**: after any conforming link prefix that ends with a closed packet, a packet
+    whose first word carries the DDW0 identifier is taken as the stop page's DDW0: a violation of the
+    documented DDW0 rule gives [E60]; with the stateful checks on, an RDH stop bit other than 1 gives
+    [E110] and page counter 0 gives [E111] — all at the word's offset packet + 64 -/
+theorem ddw0_fault_after_conforming_prefix (cfg : CheckCfg) (hits : cfg.itsChecks = true) (hst : cfg.stave = false)
+    (htp : cfg.triggerPeriod = none) (hver : cfg.customRdhVersion = none)
+    (id0 : Nat) (xs : List PktSpec) (done' : List Rdh) (st' : LSt)
+    (hc : ConformingLinkTo cfg id0 [] {} xs done' st') (hclosed : st'.bw = .closed)
+    (p : Packet) (w : Bytes) (rest : List Bytes)
+    (hne : p.payload.isEmpty = false) (hcut : cutPayload p.payload = some (w :: rest)) (hlen : w.length = 10)
+    (hid : wordId w = ID_DDW0)
+    (sf : LinkSt) (ms : List Msg)
+    (h : linkRun cfg (LinkSt.init cfg) (xs.map PktSpec.packet ++ [p]) = .ok (sf, ms)) :
+    (¬ C11.Ddw0Spec (leNat w) → Msg.error { offset := p.offset + 64, code := "E60", word := some w } ∈ ms) ∧
+    (cfg.running = true → p.rdh.stopBit ≠ 1 → Msg.error { offset := p.offset + 64, code := "E110", word := some w } ∈ ms) ∧
+    (cfg.running = true → p.rdh.pagesCounter = 0 → Msg.error { offset := p.offset + 64, code := "E111", word := some w } ∈ ms) := by
+  obtain ⟨s1, hrun, _, hrel⟩ := conforming_its_run_to cfg hits hst htp id0 xs [] (LinkSt.init cfg) {} done' st'
+    ⟨by simp [LinkSt.init, hver], fun _ => C10.init_inv⟩ ⟨Or.inl rfl, fun _ => rfl⟩ hc
+  rw [linkRun_snoc cfg _ p _ s1 [] hrun] at h
+  cases hstep : linkStep cfg s1 p with
+  | error e => simp [hstep] at h
+  | ok r2 =>
+    obtain ⟨s2, m2⟩ := r2
+    simp only [hstep, List.nil_append, Except.ok.injEq, Prod.mk.injEq] at h
+    obtain ⟨_, rfl⟩ := h
+    obtain ⟨sA, mA, hA, hsub, _⟩ := first_word cfg hits hst s1 p w rest hne hcut s2 m2 hstep
+    have hf := hrel.fsm
+    rw [hclosed] at hf
+    have h1 : (ID_DDW0 == ID_TDH) = false := by decide
+    have h2 : (ID_DDW0 == ID_IHW) = false := by decide
+    have hcls : (fsmAdvance (startCdp s1.cdp p.offset p.rdh).fsm w).2 = .ddw0 := by
+      have hfsm0 : (startCdp s1.cdp p.offset p.rdh).fsm = s1.cdp.fsm := rfl
+      rw [hfsm0]
+      rcases hf with hf | hf <;> simp [fsmAdvance, fsmStep, hf, hid, h1, h2]
+    refine ⟨?_, ?_, ?_⟩
+    · intro hbad
+      have := hsub _ (ddw0_fault_detected cfg _ w hlen hcls hbad sA mA hA)
+      simpa [mkErr, first_word_pos] using this
+    · intro hrn hstop
+      have := hsub _ (ddw0_needs_stop_bit cfg hrn _ w hcls (by simpa [startCdp] using hstop) sA mA hA)
+      simpa [mkErr, first_word_pos] using this
+    · intro hrn hpage
+      have := hsub _ (ddw0_needs_page_gt_0 cfg hrn _ w hcls (by simpa [startCdp] using hpage) sA mA hA)
+      simpa [mkErr, first_word_pos] using this
 
 end C02
 end FastPasta
